@@ -1,7 +1,7 @@
 (* C01 / C02 — pinned statements only.  Each is closed by [exact] of a lemma proved in
    Coll/Monitor.v, Coll/Run.v or Coll/DurableProofs*.v and followed by Print Assumptions. *)
 From Coq Require Import List ZArith String Bool Arith.
-From Verif Require Import Coll.Tags gen.Gen_CollFlush Coll.Monitor Coll.Run Coll.Durable Coll.DurableProofs.
+From Verif Require Import Coll.Tags gen.Gen_CollFlush Coll.Monitor Coll.Run Coll.Durable Coll.DurableProofs Coll.DurableOps.
 Import ListNotations.
 
 (* ------------------------------------------------------------------ generated facts (T) *)
@@ -65,6 +65,99 @@ Theorem C01_reopen_total_and_converges :
     Inv D K derive b -> exists h, open Keq derive b = Some h /\ Opened D K derive b h.
 Proof. exact (fun D K Keq derive b => open_sync D K Keq derive 0 b). Qed.
 Print Assumptions C01_reopen_total_and_converges.
+
+(* A crash after ANY micro-step prefix of an add / update / remove (the generated step orders),
+   started on a backend satisfying the invariant by a live handle, leaves a backend that reopens
+   and converges (crash point k universally quantified; d, id, images arbitrary). *)
+Theorem C01_crash_in_add_then_reopen :
+  forall (D K : Type) (Keq : forall a b : K, {a = b} + {a <> b}) (derive : nat -> D -> list K) (stride : nat)
+         (b : backend D K) (h : handle K) (d : D),
+    Inv D K derive b -> Live D K b h ->
+    forall k, exists h', open Keq derive (crash k (op_steps Keq derive stride (OAdd d) h) b) = Some h' /\
+                         Opened D K derive (crash k (op_steps Keq derive stride (OAdd d) h) b) h'.
+Proof. exact add_crash_reopen. Qed.
+Print Assumptions C01_crash_in_add_then_reopen.
+
+Theorem C01_crash_in_update_then_reopen :
+  forall (D K : Type) (Keq : forall a b : K, {a = b} + {a <> b}) (derive : nat -> D -> list K) (stride : nat)
+         (b : backend D K) (h : handle K) (id : nat) (dold dnew : D),
+    Inv D K derive b -> b_docs b id = Some dold ->
+    forall k, exists h', open Keq derive (crash k (op_steps Keq derive stride (OUpdate id dold dnew) h) b) = Some h' /\
+                         Opened D K derive (crash k (op_steps Keq derive stride (OUpdate id dold dnew) h) b) h'.
+Proof. exact update_crash_reopen. Qed.
+Print Assumptions C01_crash_in_update_then_reopen.
+
+Theorem C01_crash_in_remove_then_reopen :
+  forall (D K : Type) (Keq : forall a b : K, {a = b} + {a <> b}) (derive : nat -> D -> list K) (stride : nat)
+         (b : backend D K) (h : handle K) (id : nat) (dold : D),
+    Inv D K derive b -> b_docs b id = Some dold ->
+    forall k, exists h', open Keq derive (crash k (op_steps Keq derive stride (ORemove id dold) h) b) = Some h' /\
+                         Opened D K derive (crash k (op_steps Keq derive stride (ORemove id dold) h) b) h'.
+Proof. exact remove_crash_reopen. Qed.
+Print Assumptions C01_crash_in_remove_then_reopen.
+
+(* the handle a recovery builds satisfies the precondition of the theorems above (nesting) *)
+Theorem C01_reopened_handle_is_live :
+  forall (D K : Type) (derive : nat -> D -> list K) (b : backend D K) (h : handle K),
+    Opened D K derive b h -> Live D K b h.
+Proof. exact Opened_Live. Qed.
+Print Assumptions C01_reopened_handle_is_live.
+
+(* the operation in flight is fully applied or not at all: every crash prefix of an add /
+   update / remove has the documents of the state before or of the state after *)
+Theorem C01_inflight_all_or_nothing :
+  forall (D K : Type) (Keq : forall a b : K, {a = b} + {a <> b}) (derive : nat -> D -> list K) (stride : nat)
+         (b : backend D K) (h : handle K) (o : op D),
+    match o with OAdd _ | OUpdate _ _ _ | ORemove _ _ => True | _ => False end ->
+    forall k, docs_eq D K (crash k (op_steps Keq derive stride o h) b) b \/
+              docs_eq D K (crash k (op_steps Keq derive stride o h) b) (brun b (op_steps Keq derive stride o h)).
+Proof. exact inflight_all_or_nothing. Qed.
+Print Assumptions C01_inflight_all_or_nothing.
+
+(* flush, extension writes, index creation and removal never write a document, at any prefix:
+   what get(id) returns cannot change in a crashed flush or in the flush that ends a recovery *)
+Theorem C01_flush_and_maintenance_write_no_document :
+  forall (D K : Type) (Keq : forall a b : K, {a = b} + {a <> b}) (derive : nat -> D -> list K) (stride : nat)
+         (b : backend D K) (h : handle K) (o : op D),
+    match o with OFlush _ | OSaveExt _ | OCreateIndex _ _ | ORemoveIndex _ _ => True | _ => False end ->
+    forall k, docs_eq D K (crash k (op_steps Keq derive stride o h) b) b.
+Proof. exact maintenance_writes_no_document. Qed.
+Print Assumptions C01_flush_and_maintenance_write_no_document.
+
+(* C01_flush_crash_prefix_partial — NOT proved: every micro-step prefix of flush (indexes, meta,
+   ids, checkpoint, retire) started from a Consistent handle preserves [Inv]; together with the
+   theorems above it would close the induction over arbitrarily nested crashes
+   (reachable_Inv).  It is explored on the implementation instead (every crash point inside
+   flush and inside the flush that ends a recovery, nested). *)
+
+(* ------------------------------------------------------------------ the order matters *)
+(* A concrete instance (documents and keys are numbers, derive i d = [d + i]): one stored document
+   1 -> 5, one registered index holding (5,1), everything flushed. *)
+Definition ex_der (i : nat) (d : nat) : list nat := [d + i].
+Definition ex_b0 : backend nat nat :=
+  mkBackend (fun n => if Nat.eqb n 1 then Some 5 else None) (Some (1, [0])) (Some [1]) 1 0 []
+            (fun i => if Nat.eqb i 0 then Some [(5, 1)] else None).
+Definition ex_h0 : handle nat :=
+  mkHandle [1] (fun i => if Nat.eqb i 0 then [(5, 1)] else []) [0] 1 1 [] 0.
+
+(* with the GENERATED order every crash prefix of "update 1: 5 -> 7" reopens to a handle whose
+   index agrees with the stored document *)
+Example C01_model_update_nonvacuous :
+  map (fun k => match open Nat.eq_dec ex_der (crash k (op_steps Nat.eq_dec ex_der 64 (OUpdate 1 5 7) ex_h0) ex_b0) with
+                | Some h => Some (h_idx h 0, b_docs (crash k (op_steps Nat.eq_dec ex_der 64 (OUpdate 1 5 7) ex_h0) ex_b0) 1)
+                | None => None end) [0; 1; 2; 3; 4]
+  = [Some ([(5, 1)], Some 5); Some ([(5, 1)], Some 5); Some ([(5, 1)], Some 5); Some ([(5, 1)], Some 5);
+     Some ([(7, 1)], Some 7)].
+Proof. vm_compute. reflexivity. Qed.
+
+(* had update written the document BEFORE the intent, a crash between the two leaves an index that
+   answers for the old value of a document that now holds the new one — and reopen cannot tell *)
+Theorem C01_document_before_intent_refuted :
+  let bad := expand Nat.eq_dec ex_der 64 [TIndexUpdate; TDocPut; TIntent] (OUpdate 1 5 7) ex_h0 in
+  exists k h, open Nat.eq_dec ex_der (crash k bad ex_b0) = Some h /\
+              b_docs (crash k bad ex_b0) 1 = Some 7 /\ h_idx h 0 = [(5, 1)].
+Proof. exists 3. eexists. vm_compute. repeat split. Qed.
+Print Assumptions C01_document_before_intent_refuted.
 
 (* ------------------------------------------------------------------ non-vacuity *)
 Example C02_monitor_nonvacuous :
